@@ -294,6 +294,46 @@ def run(ck):
                 else:
                     ck.finding('C13.R9', WALK, 'refused:non-final', 'the extension walker refuses a chain at a known non-final mandatory extension although the extension area holds its announced data bytes and the 2-byte type field that follows' + (f" [read so far {end[1].pretty() if end and end[0] == 'int' else '?'}, present {cov[1].pretty() if cov[0] == 'int' else '?'}]" if os.environ.get('VERIF_DEBUG_R9') else ''))
     ck.rule('C13.R9 returns of the extension walker after a known mandatory extension whose bytes are present (final / non-final scenario)', n9, 3)
+    # (optional) the chain starts with an optional extension of H-LEN class h = 1..5 (id in [0x100 h, 0x100 h + 0xFF]) and the area
+    # holds its 2 (h - 1) data bytes and the type field that follows: no refusal before those bytes are read.
+    ids16 = [i for i in range(1, wbody.arg_count + 1) if wbody.local_ty(i).get('s') == 'u16']
+    if len(ids16) != 1:
+        raise Tooling('anchor lost: C13.R9 the first extension id parameter of the extension walker')
+    n9o = 0
+    for h in (1, 2, 3, 4, 5):
+        ho = {}
+
+        def start9o(I, w, args, _h=ho, _hl=h):
+            _h['root'] = args[area_i - 1][1].root
+            idv = args[ids16[0] - 1]
+            cover = Lin.c(2 * (_hl - 1) + 2)
+            if idv[0] != 'int':
+                _h['lost'] = True
+                return
+            w.store = w.store.add(le(Lin.c(0x100 * _hl), idv[1])).add(le(idv[1], Lin.c(0x100 * _hl + 0xFF))).add(le(cover, args[area_i - 1][3]))
+            w.mem[('G', '~rd_end')] = ('int', Lin.c(0))
+            w.mem[('G', '~cover')] = ('int', cover)
+            w.mem[('G', 'owed')] = ('enum', ((1, ()),))
+
+        def slice9o(I, w, frame, site, base, lo, hi, _h=ho):
+            if base.root != _h.get('root') or base.path:
+                return
+            w.mem[('G', '~rd_end')] = ('int', hi)
+            cov = w.mem.get(('G', '~cover'))
+            if cov is not None and cov[0] == 'int' and w.store.entails_eq(hi, cov[1]):
+                w.mem.pop(('G', 'owed'), None)
+        wo = ck.analyse(WALK, {'kslots': 8, 'slice_hook': slice9o}, assume=start9o, tag=f"c13-refuse-optional-{h}")
+        if ho.get('lost'):
+            raise Tooling('anchor lost: C13.R9 (optional) the first extension id of the extension walker is not an integer parameter')
+        for w, rv in wo.rets:
+            for v, fs in (ret_alts(rv) or []):
+                n9o += 1
+                ck.obligations += 1
+                if v == 0 or ghost(w, 'owed') is None:
+                    ck.discharged += 1
+                else:
+                    ck.finding('C13.R9', WALK, f"refused:optional:{h}", f"the extension walker refuses a chain at a leading optional extension of H-LEN {h} although the extension area holds its {2 * (h - 1)} data bytes and the 2-byte type field that follows")
+    ck.rule('C13.R9 returns of the extension walker for a leading optional extension whose bytes are present (H-LEN 1..5)', n9o, 5)
     # ------------------------------------------------------------------ R8 chains of one, two and three extensions, exactly
     bounded_chain_rules(ck)      # (also run by c06.run for encap_ext, on the same cached analyses)
     # ------------------------------------------------------------------ R7 bundled managers
@@ -325,7 +365,7 @@ def run(ck):
                        'R8 takes Extension::len(e) = data length of e + 2 as the definition of the per-extension measure; R2 checks on the same run that the function has exactly that table',
                        'equality of the recovered extension list follows on paper from R8 (sender layout for short chains), R6 (receiver reads the same windows contiguously), R1/R2 (one H-LEN table on both sides) and, for mandatory extensions, the manager announcing the size that was sent (assumption on the user-supplied manager)',
                        'receivers with partially knowing managers are covered only through R5 (Unknown at any point of the chain drops the packet)',
-                       'R9 covers the two mandatory arms of the walker; an over-strict refusal guard on the optional arm is not decided']
+                       'R9 judges the optional arm of the walker on the leading extension only (H-LEN classes 1..5), the mandatory arms at every answer of the manager']
     return ck.finish(
         level='other',
         explanation=('Decided clauses of C13: (R1) path summaries of Extension::new against the constructor contract (Ok iff id < 0x600 and, for optional '
@@ -337,7 +377,8 @@ def run(ck):
                      'extensions, with one symbolic data length per extension: no panic and nothing declined in encap_ext, the bytes written tile [0, returned '
                      'length) exactly, and every id, data block, the displaced protocol type and the PDU sit at the offsets the standard gives; (R9) the walker, with '
                      'the manager restricted to Final(s) resp. NonFinal(s) and the announced bytes (s resp. s + 2) assumed present at the answer, never '
-                     'refuses after a Final answer and never refuses before the guaranteed bytes are read after a NonFinal answer.'),
+                     'refuses after a Final answer and never refuses before the guaranteed bytes are read after a NonFinal answer; likewise for a leading optional '
+                     'extension of each H-LEN class with its data and the following type field present.'),
         trusted=['analysis/stdsum.py'])
 
 
